@@ -1328,6 +1328,94 @@ impl C14 {
                 ),
             });
         }
+        // restart: the generator's durable form (its JSON) is read back after the run and the
+        // revived generator goes on; it must continue exactly where a sequential generator
+        // continues and must not repeat anything issued before the restart
+        if let Some(g) = cell.get() {
+            let g = g.clone();
+            let revived = guarded(|| {
+                muted(|| {
+                    let j = serde_json::to_string(&*g).map_err(|e| e.to_string())?;
+                    let r: UuidGenerator = serde_json::from_str(&j).map_err(|e| e.to_string())?;
+                    Ok::<Vec<Uuid>, String>((0..4).map(|_| r.next()).collect())
+                })
+            });
+            match revived {
+                Ok(Ok(more)) => {
+                    *out.faults.entry("generator_restarts").or_insert(0) += 1;
+                    if more.iter().any(|u| got.contains(u)) {
+                        out.violations.push(Violation {
+                            prop: "C14".into(),
+                            sig: "C14/duplicate-after-restart".into(),
+                            at: 0,
+                            detail: format!(
+                                "a generator serialized after {} calls (start {}) and read back re-issues an id it had issued before",
+                                all.len(),
+                                p.start
+                            ),
+                        });
+                    }
+                }
+                Ok(Err(m)) => out.violations.push(Violation {
+                    prop: "C14".into(),
+                    sig: "C14/restart-fails".into(),
+                    at: 0,
+                    detail: format!("generator does not survive its own JSON form: {m}"),
+                }),
+                Err(f) => out.violations.push(Violation {
+                    prop: "C14".into(),
+                    sig: "C14/restart-fails".into(),
+                    at: 0,
+                    detail: format!("generator JSON round trip {}", f.brief()),
+                }),
+            }
+        }
+        // one logical generator seen through several restarts: windows of 6 consecutive calls
+        // starting at counters around the powers 2^8, 2^16, 2^32, 2^48 (and at 0) never share an id
+        {
+            let ns = p.ns;
+            let w = guarded(|| {
+                muted(|| {
+                    let mut seen: BTreeMap<Uuid, u64> = BTreeMap::new();
+                    let mut clash: Option<(u64, u64)> = None;
+                    for st in [0u64, (1 << 8) - 3, (1 << 16) - 3, (1 << 32) - 3, (1 << 48) - 3, (1 << 63) - 3] {
+                        let g: UuidGenerator = if st == 0 {
+                            UuidGenerator::new(Uuid::from_u128(ns))
+                        } else {
+                            let j = format!(
+                                "{{\"namespace\":\"{}\",\"counter\":{}}}",
+                                Uuid::from_u128(ns),
+                                st
+                            );
+                            serde_json::from_str(&j).expect("generator JSON")
+                        };
+                        for i in 0..6u64 {
+                            if let Some(prev) = seen.insert(g.next(), st + i) {
+                                clash.get_or_insert((prev, st + i));
+                            }
+                        }
+                    }
+                    clash
+                })
+            });
+            match w {
+                Ok(None) => {}
+                Ok(Some((a, b))) => out.violations.push(Violation {
+                    prop: "C14".into(),
+                    sig: "C14/duplicate-across-restarts".into(),
+                    at: 0,
+                    detail: format!(
+                        "the same namespace issues the same id at call {a} and at call {b} (generator restarted from its stored counter in between)"
+                    ),
+                }),
+                Err(f) => out.violations.push(Violation {
+                    prop: "C14".into(),
+                    sig: "C14/next-fails".into(),
+                    at: 0,
+                    detail: format!("window generators {}", f.brief()),
+                }),
+            }
+        }
         if !repro_ok || expect.len() != all.len() {
             out.violations.push(Violation {
                 prop: "C14".into(),
